@@ -25,6 +25,9 @@ inline std::vector<Shape> const& shapes() {
 	return v;
 }
 
+inline bool g_replay_const = false;
+template<class Root> struct ConstRoot { Root const& r; auto operator()() const { return r(); } };
+
 inline std::string sizes_str(std::vector<idx> const& sizes) { std::string p; for(std::size_t i = 0; i < sizes.size(); ++i) { p += (i ? "x" : ""); p += std::to_string(sizes[i]); } return p; }
 
 template<int D>
@@ -62,6 +65,9 @@ void run_shape(std::vector<idx> const& sizes, bool owning, Config const& cfg, st
 		for(idx i = 0; i < N; ++i) { g.data()[i] = static_cast<int>(1000 + i); }
 		multi::array_ref<int, D> a(exts, g.data());
 		run_root<D>(a, g.data(), N, sizes, name, prefix, cfg, skip);
+#ifdef VM_CONST_ROOTS   // the same search starting from the array seen through a const reference (every view is then of the read-only family)
+		{ ConstRoot<multi::array_ref<int, D>> ca{a}; run_root<D>(ca, g.data(), N, sizes, "const " + name, sizes_str(sizes) + "/c/", cfg, skip); }
+#endif
 		if(!g.intact()) { mc::R.violation("D" + std::to_string(D) + "|guard", mc::J().s("root", name).s("detail", "guard elements modified").str()); }
 	}
 #endif
@@ -98,7 +104,7 @@ int replay_shape(std::vector<idx> const& sizes, bool owning, Hist const& h, F&& 
 	{ (void)owning; vo::GuardBuffer<int> g(N); for(idx i = 0; i < N; ++i) { g.data()[i] = static_cast<int>(1000 + i); } multi::array_ref<int, D, fancy::ptr<int>> a(exts, fancy::make(g.data(), N)); go(a, g.data()); }
 #else
 	if(owning) { multi::array<int, D> a(exts); for(idx i = 0; i < N; ++i) { a.data_elements()[i] = static_cast<int>(1000 + i); } go(a, a.data_elements()); }
-	else { vo::GuardBuffer<int> g(N); for(idx i = 0; i < N; ++i) { g.data()[i] = static_cast<int>(1000 + i); } multi::array_ref<int, D> a(exts, g.data()); go(a, g.data()); }
+	else { vo::GuardBuffer<int> g(N); for(idx i = 0; i < N; ++i) { g.data()[i] = static_cast<int>(1000 + i); } multi::array_ref<int, D> a(exts, g.data()); if(g_replay_const) { ConstRoot<multi::array_ref<int, D>> ca{a}; go(ca, g.data()); } else { go(a, g.data()); } }
 #endif
 	return rc;
 }
@@ -124,7 +130,7 @@ inline bool parse_replay(std::string const& r, std::vector<idx>& sizes, bool& ow
 	auto p2 = r.find('/', p1 + 1); if(p2 == std::string::npos) { return false; }
 	std::string ss = r.substr(0, p1), own = r.substr(p1 + 1, p2 - p1 - 1), tr = r.substr(p2 + 1);
 	std::string cur; for(char c : ss + "x") { if(c == 'x') { sizes.push_back(std::atol(cur.c_str())); cur.clear(); } else { cur += c; } }
-	owning = own == "o"; h = parse_hist(tr); return true;
+	owning = own == "o"; h = parse_hist(tr); g_replay_const = own == "c"; return true;
 }
 
 template<class Replay>
